@@ -169,7 +169,10 @@ class C02(Monitor):
             add(p.addr, aid, a)
         add(p.addr, other[1], -rho)
         add(receiver, other[1], rho)
+        untracked = set(w.junk_denoms) | set(w.digit_denoms.values())    # worthless padding coins: not in the ledger
         for (acct, aid), d in exp.items():
+            if aid in untracked:
+                continue
             got = post.get(acct, aid) - pre.get(acct, aid)
             if got != d:
                 problems.append("balance of %s in %s changed by %d, settlement implies %d" % (acct, aid, got, d))
